@@ -42,9 +42,9 @@ func init() {
 		Run:          Run,
 		MaxSteps:     200000,
 		YieldFiles:   []string{"cred/manager.go"},
-		QuickRuns:    8000,
+		QuickRuns:    12000,
 		ThoroughSecs: 600,
-		Rule: "one run = (kind fault|shutdown|power, key size, store configuration, 0-4 initial users, 1-6 API changes with sleeps from {0,1ms,1s,4.999s,5s,5.001s,6s}) " +
+		Rule: "one run = (kind fault 45% | shutdown 35% | power 20%, key size, store configuration, 0-4 initial users, 1-6 API changes with sleeps from {0,1ms,1s,4.999s,5s,5.001s,6s}) " +
 			"plus, for fault/power runs, one fault plan (kind, mutating-operation index 0..13, byte count at 0/1/len-1/len/len+1/arbitrary of a predicted document, restart " +
 			"immediately or at the end) and, for shutdown runs, the change after which and the delay after which the context is cancelled and Stop called; one seeded " +
 			"schedule with statement-level pre-emption in cred/manager.go (select order seeded per run); non-trivial = the planned fault fired and the restart was " +
@@ -63,7 +63,7 @@ func init() {
 			"c20.fault.bytes=0", "c20.fault.bytes=1", "c20.fault.bytes=len-1", "c20.fault.bytes>=len", "c20.fault.bytes=mid",
 			"c20.fault.save#1", "c20.fault.save#2+", "c20.restart.immediately", "c20.restart.at-end", "c20.restart.judged", "c20.restart.old-set", "c20.restart.new-set",
 			"c20.restart.users=0", "c20.restart.api-add-ok", "c20.fault.not-reached",
-			"c20.stop.just-acked", "c20.stop.cooling", "c20.stop.save-instant", "c20.stop.idle", "c20.stop.change-in-flight", "c20.stop.inline", "c20.stop.save-after-cancel", "c20.stop.judged",
+			"c20.stop.just-acked", "c20.stop.cooling", "c20.stop.save-instant", "c20.stop.idle", "c20.stop.change-in-flight", "c20.stop.inline", "c20.stop.targeted", "c20.stop.save-after-cancel", "c20.stop.judged",
 			"c20.power.fired", "c20.power.old-or-new", "c20.power.unloadable-or-other",
 		},
 	})
@@ -153,7 +153,7 @@ var sleepMenu = []time.Duration{0, 0, time.Millisecond, time.Second, 4999 * time
 // Run is one simulated run.
 func Run(s *simrt.Sim) {
 	c := &run{s: s, keyIdx: map[string]int{}}
-	kind := s.ChooseBiased(3, 96) // 0 fault (most), 1 shutdown, 2 power
+	kind := [...]int{kFault, kFault, kFault, kFault, kFault, kFault, kFault, kFault, kFault, kShutdown, kShutdown, kShutdown, kShutdown, kShutdown, kShutdown, kShutdown, kPower, kPower, kPower, kPower}[s.Choose(20)]
 	if v := os.Getenv("VERIF_C20_KIND"); v != "" && v != fmt.Sprint(kind) {
 		return // triage aid: VERIF_C20_KIND=n executes only the runs that draw kind n
 	}
@@ -211,12 +211,7 @@ func Run(s *simrt.Sim) {
 	s.Param("key", fmt.Sprint(keyLen*8))
 	s.Param("stores", rig.StoreName(stores))
 	s.Param("initial", "{"+c.sets[0]+"}")
-	var chs []string
-	for _, ch := range c.changes {
-		chs = append(chs, fmt.Sprintf("+%v %s(%s)", ch.sleep, ch.op, ch.user))
-	}
-	c.chStr = strings.Join(chs, ", ")
-	s.Param("changes", c.chStr)
+	c.describeChanges()
 	s.Param("sched", fmt.Sprintf("pswitch=%d yieldP=%d yieldMax=%d", s.PSwitch, s.YieldP, s.YieldMax))
 
 	in, err := c.r.Boot()
@@ -234,6 +229,15 @@ func Run(s *simrt.Sim) {
 		return
 	}
 	c.runFault(kind == kPower, lens, nInit)
+}
+
+func (c *run) describeChanges() {
+	var chs []string
+	for _, ch := range c.changes {
+		chs = append(chs, fmt.Sprintf("+%v %s(%s)", ch.sleep, ch.op, ch.user))
+	}
+	c.chStr = strings.Join(chs, ", ")
+	c.s.Param("changes", c.chStr)
 }
 
 func parseCanon(u string) map[string]int {
@@ -482,7 +486,7 @@ func (c *run) runFault(power bool, lens []int, nInit int) {
 			}
 			in2.Cancel()
 		}
-		if ok {
+		if fired && ok {
 			s.Probe("c20.power.old-or-new")
 		} else if fired {
 			s.Probe("c20.power.unloadable-or-other")
@@ -598,6 +602,20 @@ func (c *run) runShutdown(nInit int) {
 	delay := util.Pick(s, sleepMenu)      // … plus this delay
 	inline := s.GenChance(96)             // the acknowledged client itself shuts down, without any delay
 	aligned := s.GenChance(110)           // the change lands on the instant at which the previous one is saved
+	// Half of the runs aim at the narrowest window: the save loop is pre-empted between
+	// releasing the lock and looking at its queue (statement-level pre-emption after every
+	// statement), the change that waited for the lock completes and its client shuts down.
+	targeted := s.GenChance(128) && len(c.changes) >= 2
+	if targeted {
+		inline, aligned = true, true
+		if after < 2 {
+			after = 2
+		}
+		s.YieldP, s.YieldMax = 255, 1
+		s.PSwitch = util.Pick(s, []int{32, 16, 64})
+	} else {
+		s.YieldMax = util.Pick(s, []int{1, 2, 8, 24})
+	}
 	if inline {
 		delay = 0
 	}
@@ -607,10 +625,11 @@ func (c *run) runShutdown(nInit int) {
 	} else if aligned {
 		c.changes[0].sleep = 0 // right after Start
 	}
-	// Pre-emption between any two statements of the save loop is what opens the window
-	// "token queued and context cancelled before the loop looks at either".
-	s.YieldMax = util.Pick(s, []int{1, 1, 2, 8, 24})
-	s.Param("shutdown", fmt.Sprintf("after change #%d + %v inline=%v aligned=%v yieldMax=%d", after, delay, inline, aligned, s.YieldMax))
+	c.describeChanges()
+	s.Param("shutdown", fmt.Sprintf("after change #%d + %v inline=%v aligned=%v targeted=%v pswitch=%d yieldP=%d yieldMax=%d", after, delay, inline, aligned, targeted, s.PSwitch, s.YieldP, s.YieldMax))
+	if targeted {
+		s.Probe("c20.stop.targeted")
+	}
 
 	var (
 		stopped, exists, inflight bool
